@@ -35,6 +35,7 @@ Switches ==
 \cup {<<"depth", 0, 0, v>> : v \in {0, 1, 4, 15, 24, 31, 33, 64}}
 \cup {<<"icc_profile", 1, 0, 2>>}
 \cup {<<"fixed_gamma", 1, 0, f>> : f \in {1, 3}}
+\cup {<<"fixed_gamma_type_none", 1, 0, f>> : f \in {1, 3}}
 \cup {<<"tileset_not_embedded", 3, 0, f>> : f \in {0, 1, 4, 5}}
 \cup {<<"layer_type", p, 0, v>> : p \in {4, 5}, v \in {3, 4, 65535}}
 \cup {<<"blend_mode", p, 0, v>> : p \in {4, 5}, v \in {19, 20, 255, 65535}}
@@ -48,6 +49,7 @@ Apply(prog, s) ==
     [] s[1] = "depth" -> [prog EXCEPT !.hdr.depth = s[4]]
     [] s[1] = "icc_profile" -> [prog EXCEPT !.frames[1].chunks[s[2]].ptype = s[4]]
     [] s[1] = "fixed_gamma" -> [prog EXCEPT !.frames[1].chunks[s[2]].flags = s[4]]
+    [] s[1] = "fixed_gamma_type_none" -> [prog EXCEPT !.frames[1].chunks[s[2]].flags = s[4], !.frames[1].chunks[s[2]].ptype = 0]
     [] s[1] = "tileset_not_embedded" -> [prog EXCEPT !.frames[1].chunks[s[2]].flags = s[4]]
     [] s[1] = "layer_type" -> [prog EXCEPT !.frames[1].chunks[s[2]].ltype = s[4]]
     [] s[1] = "blend_mode" -> [prog EXCEPT !.frames[1].chunks[s[2]].blend = s[4]]
